@@ -239,6 +239,31 @@ def work_fac_wp(chunk):
                 elif not monotone(keys):
                     col.violation(viol("C11:sort_workplace_list-wrong-order:%s" % mode, {"mode": mode, "input(capacity, placed, target skill)": combo, "result_keys": keys}))
                 col.transitions.add(hash((kind, mode, combo, tuple(w.ID for w in res))))
+            # several machines of one kind carry the same name (worker licences are keyed by the machine's name): 1, 2 or 4 "lathe"s per workplace, plus a differently named machine
+            alpha2 = [(nf, ts, other) for nf in (1, 2, 4) for ts in (0.0, 1.0, 2.5) for other in (0.0, 1.5)]
+            for combo in itertools.product(alpha2, repeat=min(n, 3)):
+                wps = []
+                for i, (nf, ts, other) in enumerate(combo):
+                    fl = [BaseFacility("lathe", ID="L%d_%d" % (i, j), workamount_skill_mean_map={"T": ts}) for j in range(nf)] + [BaseFacility("saw", ID="S%d" % i, workamount_skill_mean_map={"T": other})]
+                    wps.append(BaseWorkplace("WP%d" % i, ID="WP%d" % i, max_space_size=2.0, facility_list=fl))
+                col.evaluations += 1
+                col.checks["c11.sort_workplace_list"] += 1
+                try:
+                    res = sort_workplace_list(list(wps), S.WP_RULES[mode], name="T")
+                except Exception as e:
+                    col.violation(viol("C11:sort_workplace_list-raised:%s:%s" % (mode, type(e).__name__), {"mode": mode, "input": combo, "error": repr(e)}))
+                    continue
+                if mode == "FSS":
+                    keys = [0 for w in res]
+                else:
+                    keys = [-sum(f.workamount_skill_mean_map.get("T", 0.0) for f in w.facility_list if f.workamount_skill_mean_map.get("T", 0.0) > EPS) for w in res]
+                col.states.add(hash((kind, mode, "same-name", combo)))
+                if len(set(keys)) > 1:
+                    col.nontrivial.add(hash((kind, mode, "same-name", combo)))
+                if not is_perm(wps, res):
+                    col.violation(viol("C11:sort_workplace_list-not-a-permutation:%s" % mode, {"mode": mode, "input": combo}))
+                elif not monotone(keys):
+                    col.violation(viol("C11:sort_workplace_list-wrong-order:%s" % mode, {"mode": mode, "input(same-named machines, their skill, other machine's skill)": combo, "result_keys": keys}))
     return col
 
 
